@@ -325,6 +325,9 @@ func (ip *Interp) loadDyn(st *State, p *Ptr, t types.Type) Val {
 		}
 	}
 	idx := p.Path[di].Dyn
+	if ip.TraceDyn {
+		ip.event(Event{Kind: "dyn-load", Args: []Val{idx, &Ptr{Obj: p.Obj, Path: p.Path[:di]}}})
+	}
 	switch t.Underlying().(type) {
 	case *types.Signature, *types.Interface:
 		tab := &Ptr{Obj: p.Obj, Path: p.Path[:di], T: nil}
@@ -393,6 +396,14 @@ func (ip *Interp) Store(st *State, p *Ptr, t types.Type, v Val) {
 		return
 	}
 	if hasDyn(p.Path) {
+		if ip.TraceDyn {
+			for di, sl := range p.Path {
+				if sl.Dyn != nil {
+					ip.event(Event{Kind: "dyn-store", Args: []Val{sl.Dyn, &Ptr{Obj: p.Obj, Path: p.Path[:di]}, v}})
+				}
+			}
+			return
+		}
 		if ip.Hooks.DynStore != nil && ip.Hooks.DynStore(ip, st, p, t, v) {
 			return
 		}
